@@ -1,29 +1,12 @@
 import Fix8Model.Codec.Model
-import Fix8Model.Gen.SchemaUTEST
+import Fix8Model.Codec.Clone
+import Fix8Model.Codec.SchemaUTEST
 import Drivers.Common
 namespace Drivers.CodecD
 open Fix8Model.Codec Fix8Model
 
-def kindOfNat : Nat → Kind
-  | 0 => .int | 1 => .length | 2 => .char | 3 => .bool | 4 => .float | 5 => .string | 6 => .monthYear
-  | 7 => .timestamp | 8 => .timeOnly | 9 => .dateOnly | 10 => .data | _ => .other
-
-def bit (flags i : Nat) : Bool := flags / 2 ^ i % 2 == 1
-
-def mkTrait (r : Gen.RawTrait) : Trait :=
-  { tag := r.tag
-    kind := kindOfNat ((Gen.ftypeKind.lookup r.ftype).getD 11)
-    pos := if bit r.flags 2 then r.pos else 0     -- `getPos` reports 0 unless the position bit is set
-    mandatory := bit r.flags 0, preset := bit r.flags 1, group := bit r.flags 3, suppress := bit r.flags 5, automatic := bit r.flags 6
-    sub := r.sub }
-
-def utest : Schema :=
-  { fieldTable := Gen.utestFieldTable
-    beginStr := Gen.utestBeginStr
-    header := Gen.utestHeader.map mkTrait
-    trailer := Gen.utestTrailer.map mkTrait
-    msgs := Gen.utestMsgs.map fun (k, ts) => (k, ts.map mkTrait)
-    groups := Gen.utestGroups.map fun ts => ts.map mkTrait }
+/-- the FIX42UTEST schema: the very value `SchemaWF` is proved about (Fix8Model/Codec/SchemaUTESTWF.lean) -/
+def utest : Schema := Fix8Model.Codec.utest
 
 /-! spec parsing -/
 
@@ -190,10 +173,30 @@ def step (line : String) : String :=
       match factory S (mode == "p") raw with
       | .error e => decErr e
       | .ok d => "ok " ++ dumpMsg d
-  | "clone" :: w => withSpec S w fun _ ts m =>
-      let e := Drivers.hex (encodeBuilt S ts m)
-      let n := 0
-      s!"clone={e} copy={e} orig={e} moved={e}" ++ (if n == 0 then "" else "")
+  | "clone" :: w => withSpec S w fun mt ts m =>
+      -- Message::clone; copy_legal / move_legal of body, header, trailer into `bme._create._do(true)` (Codec/Clone.lean)
+      let f := freshMsg S mt
+      let cp : Msg :=
+        { msgType := mt
+          header := (copyLegal S S.header S.header m.header f.1).map (·.2)
+          body := (copyLegal S ts ts m.body f.2.1).map (·.2)
+          trailer := (copyLegal S S.trailer S.trailer m.trailer f.2.2).map (·.2) }
+      let mv : Msg :=
+        { msgType := mt
+          header := (moveLegal S S.header S.header m.header f.1).1.map (·.2)
+          body := (moveLegal S ts ts m.body f.2.1).1.map (·.2)
+          trailer := (moveLegal S S.trailer S.trailer m.trailer f.2.2).1.map (·.2) }
+      s!"clone={Drivers.hex (encodeMsg S ts (clone S ts m))} copy={Drivers.hex (encodeMsg S ts cp)} orig={Drivers.hex (encodeMsg S ts m)} moved={Drivers.hex (encodeMsg S ts mv)}"
+  | ["dclone", mode, h] =>
+    match Drivers.unhex h with
+    | none => "bad-op"
+    | some raw =>
+      match factory S (mode == "p") raw with
+      | .error e => decErr e
+      | .ok d =>
+        match findMsg S d.msgType with
+        | none => "throw:InvalidMessage"
+        | some (_, ts) => s!"dec={dumpMsg d} re={reencode S d} clone={Drivers.hex (encodeMsg S ts (clone S ts d))}"
   | _ => "bad-op"
 
 end Drivers.CodecD
